@@ -15,18 +15,40 @@ import (
 type c01Case struct {
 	Table   gen.TableSpec `json:"table"`
 	ViaFile bool          `json:"via_file,omitempty"`
+	// Bulk: the refs are generated programmatically (restart-cap shape)
+	Bulk *gen.Bulk `json:"bulk,omitempty"`
+}
+
+// drawBulk: one huge block with more records than the 65535 restart points a block can hold.
+func drawBulk(t *rapid.T) (gen.TableSpec, *gen.Bulk) {
+	cfg := gen.Cfg{BlockSize: 1 << 20, RestartInterval: rapid.SampledFrom([]int{1, 1, 2}).Draw(t, "bulkRI"),
+		Unaligned: rapid.Bool().Draw(t, "bulkUnaligned"), Hash: rapid.IntRange(0, 2).Draw(t, "bulkHash"), SkipIndexObjects: true}
+	b := &gen.Bulk{N: rapid.SampledFrom([]int{65534, 65535, 65536, 65537, 65600, 70000}).Draw(t, "bulkN"),
+		Kind: rapid.SampledFrom([]int{gen.KDel, gen.KSym}).Draw(t, "bulkKind")}
+	if cfg.RestartInterval == 2 {
+		b.N = 70000
+		cfg.BlockSize = 1<<21 - 1
+	}
+	return gen.TableSpec{Cfg: cfg, Min: 5, Max: 5}, b
 }
 
 func genC01(t *rapid.T) c01Case {
 	c := c01Case{}
 	c.Table = gen.DrawTable(t, gen.TableOpts{MaxRefs: 150, MaxLogs: 40, SmallBlocks: rapid.Bool().Draw(t, "small")})
 	c.ViaFile = rapid.IntRange(0, 7).Draw(t, "viaFile") == 0
+	if rapid.IntRange(0, 199).Draw(t, "bulk") == 77 {
+		c.Table, c.Bulk = drawBulk(t)
+	}
 	return c
 }
 
 // propC01: what was written is exactly what a full scan returns.
 func propC01(c c01Case, o *Obs) error {
 	spec := c.Table
+	if c.Bulk != nil {
+		spec.Refs = c.Bulk.Expand(spec.Min)
+		o.Class("bulk-restart-cap")
+	}
 	data, st, rejected, err := WriteTable(spec)
 	if rejected {
 		o.Rejected()
@@ -71,6 +93,18 @@ func propC01(c c01Case, o *Obs) error {
 	}
 	if d := DiffLogs(logs, NormLogs(spec.Logs, spec.Cfg)); d != "" {
 		return Failf("C01/log-mismatch", "%s", d)
+	}
+	if c.Bulk != nil {
+		// seeks across the point where the block runs out of restart points
+		for _, i := range []int{0, 1, 65533, 65534, 65535, 65536, 65537, len(spec.Refs) - 1} {
+			if i >= len(spec.Refs) {
+				continue
+			}
+			rec, err := reftable.ReadRef(rd, string(spec.Refs[i].Name))
+			if err != nil || rec == nil || !gen.RefOf(rec).Equal(spec.Refs[i]) {
+				return Failf("C01/bulk-seek", "ReadRef of record #%d (%q) in a block with %d records: got %v, %v", i, string(spec.Refs[i].Name), len(spec.Refs), rec, err)
+			}
+		}
 	}
 	n := len(spec.Refs) + len(spec.Logs)
 	hasDel := false
